@@ -1287,6 +1287,120 @@ pub fn edge_template(rng: &mut Rng) -> (Vec<String>, &'static str) {
     }
 }
 
+/// Texts that exercise what parse.rs does AFTER the last line (improve_state_names, demotion of states without init and
+/// next to inputs): plain states that are read by outputs / bad states / next and init functions of other states, names with `$`,
+/// duplicated names, a plain state labelled like an input (or like a reader default), states renamed through alias nodes
+/// (uext by 0, full slice) and through output labels, names the reader ignores (yosys paths, $flatten), array states.
+pub fn postproc_template(rng: &mut Rng) -> (Vec<String>, &'static str) {
+    let w = *rng.pick(&[1u64, 2, 8, 33, 64, 65]);
+    const NAMES: [&str; 14] = ["a", "b", "a", "dup", "x$y", "$s$1", "_input", "_state", "_state_0", "_input_0", "o", "nice$name", "", ""];
+    const ALIASES: [&str; 8] = ["better", "nice$name", "a", "$flatten\\y", "/very/long/path/to/some/verilog/file.v:12.3-14.5", "_state", "dup", "b"];
+    fn nm(rng: &mut Rng) -> String {
+        let n = *rng.pick(&NAMES);
+        if n.is_empty() { String::new() } else { format!(" {n}") }
+    }
+    let mut lines: Vec<String> = vec![format!("1 sort bitvec {w}"), "2 sort bitvec 1".into(), "3 sort bitvec 2".into(), "4 sort array 3 1".into()];
+    let mut id = 5u32;
+    let mut bv: Vec<u32> = vec![]; // nodes of sort 1
+    let mut arrs: Vec<u32> = vec![]; // nodes of sort 4
+    let mut states: Vec<(u32, bool)> = vec![];
+    for _ in 0..rng.range(1, 2) {
+        lines.push(format!("{id} input 1{}", nm(rng)));
+        bv.push(id);
+        id += 1;
+    }
+    if rng.chance(1, 3) {
+        lines.push(format!("{id} input 4{}", nm(rng)));
+        arrs.push(id);
+        id += 1;
+    }
+    for _ in 0..rng.range(2, 4) {
+        let arr = rng.chance(1, 4);
+        lines.push(format!("{id} state {}{}", if arr { 4 } else { 1 }, nm(rng)));
+        if arr { arrs.push(id) } else { bv.push(id) }
+        states.push((id, arr));
+        id += 1;
+    }
+    let idx = id;
+    lines.push(format!("{id} input 3"));
+    id += 1;
+    for _ in 0..rng.range(1, 4) {
+        let (a, b) = (*rng.pick(&bv), *rng.pick(&bv));
+        let neg = if rng.chance(1, 5) { "-" } else { "" };
+        lines.push(format!("{id} {} 1 {neg}{a} {b}{}", rng.pick(&["add", "and", "xor", "sub"]), nm(rng)));
+        bv.push(id);
+        id += 1;
+    }
+    if !arrs.is_empty() {
+        let a = *rng.pick(&arrs);
+        lines.push(format!("{id} read 1 {a} {idx}{}", nm(rng)));
+        bv.push(id);
+        id += 1;
+    }
+    let mut bools: Vec<u32> = vec![];
+    for _ in 0..rng.range(1, 2) {
+        let (a, b) = (*rng.pick(&bv), *rng.pick(&bv));
+        lines.push(format!("{id} {} 2 {a} {b}{}", rng.pick(&["eq", "neq", "ult", "sgte"]), nm(rng)));
+        bools.push(id);
+        id += 1;
+    }
+    // aliases: a later name for a state symbol
+    for &(sid, arr) in states.iter() {
+        if rng.chance(1, 2) {
+            let name = *rng.pick(&ALIASES);
+            if arr {
+                lines.push(format!("{id} output {sid} {name}"));
+            } else {
+                match rng.below(3) {
+                    0 => lines.push(format!("{id} uext 1 {sid} 0 {name}")),
+                    1 => lines.push(format!("{id} slice 1 {sid} {} 0 {name}", w - 1)),
+                    _ => lines.push(format!("{id} output {sid} {name}")),
+                }
+            }
+            id += 1;
+        }
+    }
+    // roles: half of the states stay without init and next
+    for &(sid, arr) in states.iter() {
+        let role = rng.below(4);
+        let s = if arr { 4 } else { 1 };
+        if role >= 2 {
+            let e = if arr { *rng.pick(&arrs) } else { *rng.pick(&bv) };
+            lines.push(format!("{id} next {s} {sid} {e}"));
+            id += 1;
+        }
+        if role == 3 {
+            if arr && rng.chance(1, 2) {
+                lines.push(format!("{id} zero 1"));
+                id += 1;
+                lines.push(format!("{id} init 4 {sid} {}", id - 1));
+            } else {
+                let e = if arr { *rng.pick(&arrs) } else { *rng.pick(&bv) };
+                lines.push(format!("{id} init {s} {sid} {e}"));
+            }
+            id += 1;
+        }
+    }
+    for _ in 0..rng.range(1, 3) {
+        let e = if rng.chance(1, 2) { rng.pick(&states).0 } else { *rng.pick(&bv) };
+        lines.push(format!("{id} output {e}{}", nm(rng)));
+        id += 1;
+    }
+    for _ in 0..rng.range(1, 2) {
+        let e = *rng.pick(&bools);
+        lines.push(format!("{id} bad {}{e}{}", if rng.chance(1, 4) { "-" } else { "" }, nm(rng)));
+        id += 1;
+    }
+    if rng.chance(1, 2) {
+        let e = *rng.pick(&bools);
+        lines.push(format!("{id} constraint {e}{}", nm(rng)));
+    }
+    if rng.chance(1, 3) {
+        shuffle_topological(rng, &mut lines);
+    }
+    (lines, "postproc")
+}
+
 // ------------------------------------------------------------------------------------------------
 // implementation runner and DAG dump
 pub struct DagDump {
